@@ -3,6 +3,7 @@ package rules
 import (
 	"fmt"
 	"go/ast"
+	"go/constant"
 	"go/token"
 	"go/types"
 	"strings"
@@ -22,12 +23,13 @@ func init() {
 				"kind is not one) and its result is used. (C06.unexp) a struct field value returned by resolveIndex comes from the exported-only cache (buildCache stores a field only under PkgPath == \"\") " +
 				"or lies behind the PkgPath test. (C06.nil) resolveIndex tests for a nil interface before MethodByName, indirect() stops at nil, every failing return of the resolver carries a " +
 				"non-nil error, the only (zero value, nil error) result is the absent map key at the end of a chain, and promoted fields are reached by a walker that tests IsNil before Elem (never reflect.Value.FieldByIndex/FieldByName, which panic on a nil embedded pointer — also when a field is assigned). (C06.same) a.b, a.b.c, a[\"b\"] and isset all resolve through resolveIndex " +
-				"and perform no reflect lookup of their own. (C06.cache) every value stored into the struct field-index cache (the per-type map and each field's index path) is a fresh allocation made for that entry, never storage shared with a sibling path or the caller. (C06.cache, continued) buildCache writes an entry only where none exists or the new index path is not longer (the shallowest field wins, as in Go); the field table resolveIndex consults is the one found in or stored into the package-level map on every path. (C06.nil, continued) indirect() returns a non-nil result only for a value that is neither pointer nor interface. (C06.same, continued) the name argument of resolveIndex is a node's field/identifier name, or empty together with an evaluated index value (never a string literal's text); the method lookup takes the address of every addressable value that is neither pointer nor interface; every store into a template variable and every read from the scope chain agree on unwrapping interfaces. (C06.cache, continued) buildCache's walk is depth first, so an existing entry is replaced when a field at a shallower depth has the same name.",
+				"and perform no reflect lookup of their own. (C06.cache) every value stored into the struct field-index cache (the per-type map and each field's index path) is a fresh allocation made for that entry, never storage shared with a sibling path or the caller. (C06.cache, continued) buildCache writes an entry only where none exists or the new index path is not longer (the shallowest field wins, as in Go); the field table resolveIndex consults is the one found in or stored into the package-level map on every path. (C06.nil, continued) indirect() returns a non-nil result only for a value that is neither pointer nor interface. (C06.same, continued) the name argument of resolveIndex is a node's field/identifier name, or empty together with an evaluated index value (never a string literal's text); the method lookup takes the address of every addressable value that is neither pointer nor interface; every store into a template variable and every read from the scope chain agree on unwrapping interfaces. (C06.cache, continued) buildCache's walk is depth first, so an existing entry is replaced when a field at a shallower depth has the same name. (C06.same methods-first) every path of resolveIndex that reaches the dispatch on the value's kind has asked MethodByName, or was turned away by a gate around the lookup whose condition depends on the name only (is it a string?) — not on the value being resolved or anything derived from it (its type, kind, nil-ness). (C06.nil indirect, path form) Elem() is called only on a value known not to be nil, `true` is returned only for a value known to be nil and `false` only for one known to be neither pointer nor interface. (C06.bounds, continued) a loop counter handed to Index is in range only when the bound of its loop is the length of the very value indexed, or of a value whose length is known to be equal (two values compared element-wise).",
 			NotDecided:  "that reflection finds the right field for every type shape (promoted/shadowed fields), pointer-receiver methods on non-addressable values, executeSet's writes.",
 			Assumptions: []string{"Go's reflect package panics exactly as documented"},
 			Trusted:     commonTrusted,
 		},
 		Mutants: []Mutant{
+			{Name: "arrays of equal length compare unequal, the elements of unequal ones are paired (original defect)", File: "eval.go", Old: "\tcase reflect.Array:\n\t\tvlen := v1.Len()\n\t\tif vlen != v2.Len() {", New: "\tcase reflect.Array:\n\t\tvlen := v1.Len()\n\t\tif vlen == v2.Len() {", Rule: "C06.bounds"},
 			{Name: "byte slices converted to string after a test of the element kind only (original defect)", File: "eval.go", Old: "right.Type().Elem().Kind() == reflect.Uint8 && right.Type().ConvertibleTo(left.Type()) {", New: "right.Type().Elem().Kind() == reflect.Uint8 {", Rule: "C06.conv"},
 			{Name: "promoted fields overwrite outer fields (original defect)", File: "eval.go", Old: "\t\tif old, ok := cache[field.Name]; !ok || len(index) <= len(old) {\n\t\t\tcache[field.Name] = index\n\t\t}", New: "\t\tcache[field.Name] = index", Rule: "C06.cache"},
 			{Name: "deeper field wins", File: "eval.go", Old: "!ok || len(index) <= len(old) {", New: "!ok || len(index) >= len(old) {", Rule: "C06.cache"},
@@ -104,8 +106,17 @@ func boundsRule(c *an.Ctx, rule string) {
 			key := f.Name + "/" + strings.TrimPrefix(name, "(reflect.Value).")
 			var problems []string
 			for ai, a := range call.Args {
-				switch classifyIndex(p, f, a) {
-				case "indexArg", "counter", "const":
+				switch cls := classifyIndex(p, f, a); cls {
+				case "indexArg", "const":
+					continue
+				case "counter":
+					// an internal counter is in range when the bound of its loop is the length of the value indexed — or
+					// of a value whose length is known to be the same (element-wise comparison of two values)
+					if name == "(reflect.Value).Index" && ai == 0 {
+						if why := counterBound(p, f, pr.X, call, a, pr.At[call]); why != "" {
+							problems = append(problems, why)
+						}
+					}
 					continue
 				}
 				// template-derived (or unknown) integer: explicit facts are needed on every path
@@ -692,6 +703,157 @@ func c06methodSet(c *an.Ctx) {
 	default:
 		c.OK("C06.same", key, f.Pos(), "a method is looked up on the address of every addressable non-pointer, non-interface value")
 	}
+	c06methodsFirst(c, f)
+}
+
+// c06methodsFirst (C06.same methods-first): a member named by a string is a method first, whatever the value is — a
+// value of any kind can have methods (named maps and slices, unnamed structs embedding a type with methods).  On
+// every path of resolveIndex that reaches the dispatch on the value's kind (fields, keys, indexes) with the name
+// known — or not known not — to be a string, MethodByName has been asked before; a gate derived from the value's
+// type in front of it ("only named types have methods") hides promoted methods.
+func c06methodsFirst(c *an.Ctx, f *an.Fn) {
+	p := c.P
+	info := f.Info()
+	var kindSwitch *ast.SwitchStmt
+	an.InspectOwn(f, func(n ast.Node) bool {
+		if sw, ok := n.(*ast.SwitchStmt); ok && kindSwitch == nil && sw.Tag != nil {
+			if call := callOf(sw.Tag); call != nil && an.CalleeName(info, call) == "(reflect.Value).Kind" {
+				kindSwitch = sw
+			}
+		}
+		return true
+	})
+	if kindSwitch == nil {
+		c.Anchor("C06.same", "dispatch on the value's kind in resolveIndex")
+		return
+	}
+	// the gates: if statements that enclose the method lookup.  A gate may depend on the name (is it a string?), not on
+	// the value being resolved or anything derived from it (its type, its kind, whether it is nil)
+	var lookups []*ast.CallExpr
+	an.InspectOwn(f, func(n ast.Node) bool {
+		if call, ok := n.(*ast.CallExpr); ok && an.CalleeName(info, call) == "(reflect.Value).MethodByName" {
+			lookups = append(lookups, call)
+		}
+		return true
+	})
+	tainted := map[types.Object]bool{}
+	if v := an.Param(f, 0); v != nil {
+		tainted[v] = true
+	}
+	mentionsTainted := func(e ast.Node) bool {
+		found := false
+		if e == nil {
+			return false
+		}
+		ast.Inspect(e, func(n ast.Node) bool {
+			if id, ok := n.(*ast.Ident); ok && tainted[an.ObjOf(info, id)] {
+				found = true
+			}
+			return !found
+		})
+		return found
+	}
+	for changed := true; changed; {
+		changed = false
+		an.InspectOwn(f, func(n ast.Node) bool {
+			as, ok := n.(*ast.AssignStmt)
+			if !ok {
+				return true
+			}
+			dep := false
+			for _, r := range as.Rhs {
+				if mentionsTainted(r) {
+					dep = true
+				}
+			}
+			if !dep {
+				return true
+			}
+			for _, l := range as.Lhs {
+				if id, ok := l.(*ast.Ident); ok {
+					if o := an.ObjOf(info, id); o != nil && !tainted[o] {
+						tainted[o] = true
+						changed = true
+					}
+				}
+			}
+			return true
+		})
+	}
+	type gate struct {
+		cond    ast.Expr
+		tainted bool
+	}
+	var gates []gate
+	// (a lookup made inside a new helper is gated by what encloses the call of that helper)
+	sites := append([]*ast.CallExpr{}, lookups...)
+	an.InspectBody(f, func(n ast.Node) bool {
+		call, ok := n.(*ast.CallExpr)
+		if !ok {
+			return true
+		}
+		if h := p.NewHelperCallee(f, call); h != nil {
+			for g := range p.Reach(h) {
+				if g.Body != nil && len(p.CallsIn(g, "(reflect.Value).MethodByName")) > 0 {
+					sites = append(sites, call)
+					break
+				}
+			}
+		}
+		return true
+	})
+	for _, lk := range sites {
+		for _, enc := range an.EnclosingStmts(f, lk) {
+			if is, ok := enc.(*ast.IfStmt); ok && lk.Pos() >= is.Body.Pos() && lk.End() <= is.Body.End() {
+				gates = append(gates, gate{is.Cond, mentionsTainted(is.Cond) || mentionsTainted(is.Init)})
+			}
+		}
+	}
+	bad := token.NoPos
+	var badFacts []string
+	reached := false
+	x := p.NewExplorer(f, an.Hooks{
+		Branch: func(x *an.Explorer, cond ast.Expr, val bool, st *an.State) {
+			if val {
+				return
+			}
+			for _, g := range gates {
+				if !g.tainted && cond.Pos() >= g.cond.Pos() && cond.End() <= g.cond.End() {
+					st.Set("gate-said-no", "1")
+				}
+			}
+		},
+		Call: func(x *an.Explorer, call *ast.CallExpr, st *an.State) {
+			if an.CalleeName(info, call) == "(reflect.Value).MethodByName" {
+				st.Set("asked", "1")
+			}
+		},
+		Stmt: func(x *an.Explorer, n ast.Node, st *an.State) {
+			if n != ast.Node(kindSwitch.Tag) && n != ast.Node(kindSwitch) {
+				return
+			}
+			reached = true
+			if st.Get("asked") != "" || st.Get("gate-said-no") != "" {
+				return
+			}
+			if !bad.IsValid() {
+				bad, badFacts = kindSwitch.Pos(), an.Facts(st)
+			}
+		},
+	})
+	x.Run(nil)
+	c.States += x.Visited
+	key := "resolveIndex/methods-first"
+	switch {
+	case x.Undecided != "":
+		c.Undecided("C06.same", key, f.Pos(), "%s", x.Undecided)
+	case !reached:
+		c.Anchor("C06.same", "dispatch on the value's kind reached by the exploration of resolveIndex")
+	case bad.IsValid():
+		c.Bad("C06.same", key, bad, badFacts, "resolveIndex reaches the dispatch on the value's kind with a name that may be a string without having asked MethodByName: for some values (whatever gate stands before the lookup) methods are no longer found and the name is taken for a field, key or index")
+	default:
+		c.OK("C06.same", key, f.Pos(), "MethodByName is asked on every path that reaches the kind dispatch with a string name")
+	}
 }
 
 func findIdentArg(ret *ast.ReturnStmt) (*ast.Ident, bool) {
@@ -756,25 +918,84 @@ func c06nil(c *an.Ctx) {
 	c.Check(!bad.IsValid(), "C06.nil", "resolveIndex/failures-are-errors", ri.Pos(), "every failing path of resolveIndex returns a non-nil error", "resolveIndex returns (zero value, nil error) on a failing path: a missing member silently evaluates to nil instead of being an error")
 	// indirect stops at nil
 	if ind := c.Fn("C06.nil", "indirect"); ind != nil {
-		ok := false
-		an.InspectOwn(ind, func(n ast.Node) bool {
-			fs, isFor := n.(*ast.ForStmt)
-			if !isFor {
-				return true
-			}
-			if len(fs.Body.List) > 0 {
-				if is, isIf := fs.Body.List[0].(*ast.IfStmt); isIf && strings.ReplaceAll(an.Str(is.Cond), " ", "") == "v.IsNil()" {
-					if ret, isRet := is.Body.List[0].(*ast.ReturnStmt); isRet && an.Str(ret.Results[1]) == "true" {
-						ok = true
+		// path rule: Elem() is called only on a value known not to be nil; `true` is returned only for a value known
+		// to be nil, `false` only for one known to be neither a pointer nor an interface
+		iinfo := ind.Info()
+		ok := true
+		nElem, nRet := 0, 0
+		kindIs := func(x *an.Explorer, v ast.Expr, kind string, st *an.State) (bool, bool) {
+			var kc ast.Expr = &ast.CallExpr{Fun: &ast.SelectorExpr{X: v, Sel: ast.NewIdent("Kind")}}
+			// use a Kind() call of the function on the same value, so that types are known to the explorer
+			an.InspectOwn(ind, func(n ast.Node) bool {
+				if call, isCall := n.(*ast.CallExpr); isCall && an.CalleeName(iinfo, call) == "(reflect.Value).Kind" {
+					if k1, ok1 := x.Key(an.Receiver(call)); ok1 {
+						if k2, ok2 := x.Key(v); ok2 && k1 == k2 {
+							kc = call
+						}
 					}
 				}
-			}
-			return true
+				return true
+			})
+			return x.Truth(&ast.BinaryExpr{X: kc, Op: token.EQL, Y: &ast.SelectorExpr{X: ast.NewIdent("reflect"), Sel: ast.NewIdent(kind)}}, st)
+		}
+		isNilOf := func(x *an.Explorer, v ast.Expr, st *an.State) (bool, bool) {
+			known, val := false, false
+			an.InspectOwn(ind, func(n ast.Node) bool {
+				if call, isCall := n.(*ast.CallExpr); isCall && an.CalleeName(iinfo, call) == "(reflect.Value).IsNil" {
+					if k1, ok1 := x.Key(an.Receiver(call)); ok1 {
+						if k2, ok2 := x.Key(v); ok2 && k1 == k2 {
+							if t, kn := x.Truth(call, st); kn {
+								known, val = true, t
+							}
+						}
+					}
+				}
+				return true
+			})
+			return val, known
+		}
+		ix := p.NewExplorer(ind, an.Hooks{
+			Call: func(x *an.Explorer, call *ast.CallExpr, st *an.State) {
+				if an.CalleeName(iinfo, call) == "(reflect.Value).Elem" {
+					nElem++
+					if t, known := isNilOf(x, an.Receiver(call), st); !known || t {
+						ok = false
+					}
+				}
+			},
+			Return: func(x *an.Explorer, ret *ast.ReturnStmt, st *an.State) {
+				if len(ret.Results) != 2 {
+					ok = false
+					return
+				}
+				nRet++
+				tv, has := iinfo.Types[ret.Results[1]]
+				if !has || tv.Value == nil {
+					ok = false // the flag is computed: not followed
+					return
+				}
+				if constant.BoolVal(tv.Value) {
+					if t, known := isNilOf(x, ret.Results[0], st); !known || !t {
+						ok = false
+					}
+					return
+				}
+				for _, kind := range []string{"Ptr", "Interface"} {
+					if t, known := kindIs(x, ret.Results[0], kind, st); !known || t {
+						ok = false
+					}
+				}
+			},
 		})
+		ix.Run(nil)
+		c.States += ix.Visited
+		if ix.Undecided != "" || nElem == 0 || nRet < 2 {
+			ok = false
+		}
 		c.Check(ok, "C06.nil", "indirect/stops-at-nil", ind.Pos(), "indirect() tests IsNil before every Elem()", "indirect() does not stop at a nil pointer/interface before dereferencing it")
 		// … and runs to the end of the chain: a "not nil" result is returned only where the value is known to be
 		// neither a pointer nor an interface (access reaches the data "through any pointers and interfaces")
-		iinfo := ind.Info()
+		_ = iinfo
 		x := p.NewExplorer(ind, an.Hooks{})
 		x.Run(nil)
 		c.States += x.Visited
@@ -1089,4 +1310,87 @@ func mapKeyRule(c *an.Ctx, rule string) {
 	c.Expect(rule, "MapIndex calls in resolveIndex (state visits)", n, 1)
 	c.Check(!bad.IsValid(), rule, "resolveIndex/map-key-converted", f.Pos(), "the key handed to MapIndex was converted to the map's key type on every path",
 		"resolveIndex can hand MapIndex a key that was not converted to the map's key type: a key of the right kind but another type (a string for map[Role]…) makes reflect panic with a string, which escapes Execute (and makes isset answer false for an existing key)")
+}
+
+// counterBound: the loop counter i handed to recv.Index(i) is known, in every state at the call, to be below a bound
+// that is recv.Len() or known to equal it.  Returns "" when that holds, the problem otherwise.  A counter that is a
+// field of a ranger (its own cursor) is not looked at here.
+func counterBound(p *an.Prog, f *an.Fn, x *an.Explorer, call *ast.CallExpr, idx ast.Expr, states []*an.State) string {
+	info := f.Info()
+	id, ok := an.Unparen(idx).(*ast.Ident)
+	if !ok {
+		return ""
+	}
+	recv := an.Receiver(call)
+	rk, ok := x.Key(recv)
+	if !ok {
+		return ""
+	}
+	// the bounds the counter is compared with in loop conditions, and the Len() calls of the function
+	var bounds []ast.Expr
+	var lens []*ast.CallExpr
+	an.InspectOwn(f, func(n ast.Node) bool {
+		switch s := n.(type) {
+		case *ast.ForStmt:
+			if b, ok := an.Unparen(s.Cond).(*ast.BinaryExpr); ok && s.Cond != nil && b.Op == token.LSS {
+				if bid, ok := an.Unparen(b.X).(*ast.Ident); ok && an.ObjOf(info, bid) == an.ObjOf(info, id) {
+					bounds = append(bounds, b.Y)
+				}
+			}
+		case *ast.CallExpr:
+			if an.CalleeName(info, s) == "(reflect.Value).Len" {
+				lens = append(lens, s)
+			}
+		}
+		return true
+	})
+	if len(bounds) == 0 {
+		return ""
+	}
+	for _, st := range states {
+		okState := false
+		for _, b := range bounds {
+			if t, known := x.Truth(&ast.BinaryExpr{X: id, Op: token.LSS, Y: b}, st); !known || !t {
+				continue
+			}
+			// b is recv.Len() (or a local that holds it) …
+			cands := []ast.Expr{b}
+			if bid, ok := an.Unparen(b).(*ast.Ident); ok {
+				for _, d := range an.LocalDefs(f, an.ObjOf(info, bid)) {
+					if d != nil {
+						cands = append(cands, d)
+					}
+				}
+			}
+			for _, cand := range cands {
+				if bc := callOf(cand); bc != nil && an.CalleeName(info, bc) == "(reflect.Value).Len" {
+					if k, ok := x.Key(an.Receiver(bc)); ok && k == rk {
+						okState = true
+					}
+				}
+			}
+			// … or equal to it
+			for _, l := range lens {
+				k, ok := x.Key(an.Receiver(l))
+				if !ok || k != rk {
+					continue
+				}
+				if t, known := x.Truth(&ast.BinaryExpr{X: b, Op: token.NEQ, Y: l}, st); known && !t {
+					okState = true
+				}
+				if t, known := x.Truth(&ast.BinaryExpr{X: b, Op: token.EQL, Y: l}, st); known && t {
+					okState = true
+				}
+				if bk, ok := x.Key(b); ok {
+					if lk, ok := x.Key(l); ok && bk == lk {
+						okState = true
+					}
+				}
+			}
+		}
+		if !okState {
+			return an.Str(idx) + " runs up to a bound that is not known to be " + an.Str(recv) + ".Len() (the lengths of the two values were not found equal before their elements are paired)"
+		}
+	}
+	return ""
 }
